@@ -655,6 +655,7 @@ def run_profiles(ctx, env, n):
             continue
         agree = True
         worst = 0.0
+        direct = None
         for k in range(npts):
             row = mod[k * per:(k + 1) * per]
             mne, mte, mf = row[0], row[1], row[2:]
@@ -678,8 +679,16 @@ def run_profiles(ctx, env, n):
             for tag, text in check_fractions(f, S, A, C, nd_k / ne_k, case['donor']):
                 if tag == 'range' and pc['which'] == 'fd':
                     continue
-                ctx.count('S-fail:C09:%s:%s' % (_base_entry(name), tag))
-                ctx.fail('C09:%s:%s' % (_base_entry(name) if tag == 'donor-cx-rates-discarded' else name, tag),
+                signame = name
+                if tag == 'donor-cx-rates-discarded' and pc['interp']:
+                    # attribute to the direct entry point only if it shows the same defect on the same input
+                    if direct is None:
+                        direct = exec_profile(env, dict(pc, interp=False))
+                    if direct[1] == 'ok' and direct[3].shape == flat.shape and any(
+                            t2 == tag for t2, _ in check_fractions([x / sc for x in direct[3][k]], S, A, C, nd_k / ne_k, case['donor'])):
+                        signame = _base_entry(name)
+                ctx.count('S-fail:C09:%s:%s' % (signame, tag))
+                ctx.fail('C09:%s:%s' % (signame, tag),
                          '%s at index %d (n_e=%.4g, T_e=%.4g, n_D=%.4g, representations %r): %s' % (name, k, ne_k, te_k, nd_k, pc['reps'], text),
                          dict(index=k, **desc))
         ctx.extra['max_dev_profile'] = max(ctx.extra.get('max_dev_profile', 0.0), worst)
@@ -811,6 +820,13 @@ def run_entry_agreement(ctx, env, n):
             checks.append(('interpolators2d_match_plasma_neutrality',
                            lambda: ib.interpolators2d_match_plasma_neutrality(env.Mock(case), el, fv, species, ne_o, te_o, donor, nd_arg, case['dq']),
                            lambda f, pt: f(pt[0], pt[1]), direct, pts))
+        if dim == 2:
+            def _axi():
+                f2d = ib.interpolators2d_match_plasma_neutrality(env.Mock(case), el, fv, species, ne_o, te_o, donor, nd_arg, case['dq'])
+                return ib.abundance_axisymmetric_mapper(f2d)
+            # (r, z) knots reached as (x, y, z) = (r cos a, r sin a, z)
+            checks.append(('abundance_axisymmetric_mapper', _axi,
+                           lambda f, pt: f(pt[0] * math.cos(0.7), pt[0] * math.sin(0.7), pt[1]), direct, pts))
         for name, mk, ev, ref, pts_ in checks:
             st, fm = guarded(mk)
             ctx.count('entry:' + name)
@@ -820,7 +836,7 @@ def run_entry_agreement(ctx, env, n):
             sc = float(np.max(np.abs(ref))) or 1.0
             dev = max(abs(ev(fm[z], pt) - ref[k][z]) for k, pt in enumerate(pts_) for z in range(Z + 1)) / sc
             ctx.case(key=(name, dim, case['Z'], it))
-            if not dev <= 1e-9:
+            if not dev <= (1e-7 if name == 'abundance_axisymmetric_mapper' else 1e-9):
                 ctx.fail('C09:%s:differs-from-direct' % name, '%s at the knots differs from match_plasma_neutrality by %.3g (relative to the largest density)' % (name, dev), desc)
         # ---- equilibrium maps (1-D profiles over psi_n)
         if dim == 1 and it % 2 == 0:
